@@ -135,9 +135,25 @@ def layout_agreement(ctx):
     # recogniser: key tuple of _is_cooler == the four groups; magic == schema constant
     fr = ctx.fa('cooler.fileops._is_cooler')
     keys = None
-    for e in events(fr, 'assign'):
-        if e.value[0] == 'tuple' and all(x[0] == 'c' for x in e.value[1]):
-            keys = {x[1] for x in e.value[1]}
+    # the names the recogniser requires: a literal tuple / list of names wherever it is written (local, module constant,
+    # iterated by all(...) / any(...))
+    def terms_of(v):
+        if T.is_term(v):
+            yield from T.walk(v)
+        elif isinstance(v, tuple):
+            for y in v:
+                yield from terms_of(y)
+    for e in fr.events:
+        for v in e.d.values():
+            if not isinstance(v, tuple):
+                continue
+            for x in terms_of(v):
+                if x[0] in ('tuple', 'list') and len(x[1]) >= 3 and all(y[0] == 'c' and isinstance(y[1], str) for y in x[1]):
+                    keys = (keys or set()) | {y[1] for y in x[1]}
+                # ... or already unrolled into one membership test per name:  'chroms' in grp.keys() and ...
+                if x[0] == 'cmp' and x[1] in ('in', 'notin') and x[2][0] == 'c' and isinstance(x[2][1], str) \
+                        and ((x[3][0] == 'call' and x[3][1][0] == 'attr' and x[3][1][2] == 'keys') or x[3][0] == 'v'):
+                    keys = (keys or set()) | {x[2][1]}
     ctx.check(keys == {'chroms', 'bins', 'pixels', 'indexes'}, R, 'recogniser-keys', ctx.where(fr),
               found=sorted(keys or []), expected=['bins', 'chroms', 'indexes', 'pixels'],
               reason='the corruption warning of the recogniser must name the groups the writer makes')
